@@ -1,6 +1,6 @@
 #!/bin/bash
 # runs the quick tier of every claimed property, one after the other, in /verif against /repo (writes evidence/ and bounds/)
 cd "$(dirname "$0")/.."
-for p in C14 C13 C20 C05 C15 C06 C09 C11 C03 C04 C18 C07 C16 C01 C02 C17; do
+for p in C14 C13 C20 C05 C15 C06 C09 C11 C03 C04 C18 C07 C16 C19 C01 C02 C17; do
   echo "=== $p $(date)"; /usr/bin/time -f "wall_total=%es" ./check.py $p --tier quick 2>&1 | grep -a "^\[$p\]\|^VIOLATION\|^INCONCLUSIVE\|^KNOWN\|^wall_total" | cut -c1-300
 done
